@@ -8,9 +8,8 @@ RULE = ("correspondence: all four pairing implementations of the model vs the re
         "equality, random projective representatives), final_exponentiate / exp_by_p of the model vs the real functions on 0, 1, sparse, random "
         "elements; predicates on the real code: optimized pairing == reference pairing of the same curve, product of 1..6 Miller values through "
         "one final exponentiation == product of the pairings, final_exponentiate(x) == x ** ((p^12-1)/r) and exp_by_p(x) == x ** p")
-HYPOTHESES = ["HB3_irred12 (FQ12 is a field) for the inverse inside the split final exponentiation"]
-NOT_YET_PROVED = ["optimized Miller value == reference Miller value (BLS12-381) and signed-digit equality after final exponentiation (bn128): "
-                  "correspondence + predicates only", "exp_by_p x = x^p for all x (Frobenius additivity in the model)"]
+HYPOTHESES = []
+NOT_YET_PROVED = ['optimized bn128 Miller loop (signed digits) == reference bn128 after final exponentiation: exact FQ12 correspondence of all four implementations + predicates (BLS12-381 is a theorem: C12_Miller)']
 ASSUMPTIONS = []
 nontrivial = nontrivial_default
 CHUNK = 1
@@ -40,6 +39,10 @@ def cases(rng, tier):
             cs.append(pair_case("Opt" + curve, Q, Pt, rng))
             cs.append(pair_case("Opt" + curve, Q, Pt, rng, fe=0))
             cs.append(pair_case("Ref" + curve, Q, Pt))
+        # the identity (a subgroup point) in NON-canonical projective representations (proj_tokens(None, s) = (s, 1, 0))
+        cs.append(pair_case("Opt" + curve, None, O.aff_mul(g1.gen, 3), rng))
+        cs.append(pair_case("Opt" + curve, O.aff_mul(g2.gen, 3), None, rng))
+        cs.append(pair_case("Opt" + curve, None, O.aff_mul(g1.gen, 3), rng, fe=0))
     for x in elems(rng, tier):
         cs.append(Case("pairing.fexp_OptBls", [tl(x)]))
         cs.append(Case("pairing.expbyp_OptBls", [tl(x)]))
@@ -61,6 +64,29 @@ def opt_eq_ref_pred(curve, a, b, seed):
     if o1 != o2:
         bad.append("depends on the projective representative")
     return (not bad, f"{curve}: {bad} at a={a} b={b}")
+
+
+def inf_rep_pred(curve, seed):
+    """optimized == reference when an argument is the identity given as ANY z = 0 triple (as produced by the library itself)"""
+    import importlib
+    import pyexec
+    mod = "Opt" + curve
+    M = importlib.import_module(pyexec.MODS[mod])
+    one = [1] + [0] * 11
+    bad = []
+    ref = lib_pairing("Ref" + curve, None, grp(mod, "G1").gen)
+    if ref != one:
+        bad.append("reference pairing(Q, infinity) is not the unit")
+    reps1 = [M.Z1, M.double(M.Z1), M.multiply(M.Z1, 6), M.double(M.multiply(M.G1, M.curve_order)), M.add(M.G1, M.neg(M.G1))]
+    reps2 = [M.Z2, M.double(M.Z2), M.multiply(M.Z2, 5), M.add(M.G2, M.neg(M.G2))]
+    for Z in reps1:
+        for fe in (True, False):
+            if [int(c) for c in M.pairing(M.G2, Z, final_exponentiate=fe).coeffs] != one:
+                bad.append(f"pairing(G2, identity as {tuple(int(c.n) for c in Z)}, final_exponentiate={fe}) != reference value 1")
+    for Z in reps2:
+        if [int(c) for c in M.pairing(Z, M.G1).coeffs] != one:
+            bad.append("pairing(identity in G2 (non-canonical), G1) != reference value 1")
+    return (not bad, f"{mod} vs reference at the identity: {bad[:3]}")
 
 
 def two_step_pred(curve, scal, seed):
@@ -116,6 +142,7 @@ def predicates(rng, tier, only=None):
         r = grp("Opt" + curve, "G1").order
         for _ in range(1 if tier == "quick" else 8):
             ps.append(Pred("opt-eq-ref", opt_eq_ref_pred, (curve, rng.randrange(1, r), rng.randrange(1, r), rng.randrange(1 << 30))))
+        ps.append(Pred("opt-eq-ref-at-identity", inf_rep_pred, (curve, 0)))
         for k in ([2] if tier == "quick" else [1, 2, 3, 6]):
             ps.append(Pred("two-step", two_step_pred, (curve, [(rng.randrange(1, r), rng.randrange(1, r)) for _ in range(k)], rng.randrange(1 << 30))))
     for x in elems(rng, tier):
